@@ -153,7 +153,7 @@ def conform(ctx, trace, name="conf"):
 
 
 def run(ctx):
-    prop, tier, rng = ctx.prop, ctx.tier, ctx.rng
+    prop, tier, rng = ctx.prop, ctx.tier, ctx.sub_rng("fam_throttle.1")
     consts = design_consts(tier)
     d = ctx.tlc("design", "ThrCheck", mkcfg(init="CInit", next_="CNext", constants=consts,
                                             invariants=["NoViolation", "TypeOK", "MonAgrees"], view="CView"),
@@ -167,9 +167,9 @@ def run(ctx):
     r = ctx.tlc("replay", "ThrReplay", mkcfg(init="RInit", next_="RNext", constants=rc),
                 args=["-dump", "dot,actionlabels", "graph"], timeout=900, heap="4g", expect_ok=True)
     inits, nodes, edges = vlib.parse_dot(os.path.join(r["dir"], "graph.dot"), evvar="sc")
-    paths, ne = vlib.transition_cover(inits, nodes, edges, maxlen=60, rng=rng, limit=2500 if tier == "quick" else None)
+    paths, ne = vlib.transition_cover(inits, nodes, edges, maxlen=60, rng=ctx.sub_rng("throttle.cover"), limit=2500 if tier == "quick" else None)
     for p in paths:
-        fps = rng.choice([1, 1, 2]) if rc["CCap"] % 2 == 0 and rc["CMinLen"] % 2 == 0 else 1
+        fps = ctx.sub_rng("throttle.coverfps").choice([1, 1, 2]) if rc["CCap"] % 2 == 0 and rc["CMinLen"] % 2 == 0 else 1
         scripts.append(dict(mode="direct", cfg=dict(fps=fps, bucket=rc["CCap"] // fps, minlen=rc["CMinLen"] // fps, k=rc["CK"]),
                             steps=[nodes[x] for x in p if nodes.get(x)], origin="cover"))
     ncover = len(scripts)
